@@ -321,7 +321,8 @@ class _Gen(object):
         self.placement = r.choice(['uniform', 'late', 'store', 'store'])
         self.nhist = r.randint(5, 32)
         self.judge_rate = r.choice([0.0, 0.3, 0.6])
-        self.actors = ['mp'] + (['c1'] if r.random() < 0.25 else []) + (['fp'] if r.random() < 0.15 else []) + (['iv'] if r.random() < 0.15 else [])
+        self.actors = ['mp'] + (['c1'] if r.random() < (0.5 if self.special in ('matrix', 'both') else 0.25) else []) + \
+                      (['fp'] if r.random() < 0.15 else []) + (['iv'] if r.random() < 0.15 else [])
         self.hi = 3200 if 'elem' in self.groups else r.choice([200, 400, 1200])
         self.cfg = {'groups': self.groups, 'special': self.special, 'fault_rate': self.fault_rate, 'fault_kinds': self.kinds,
                     'placement': self.placement, 'budget': m.BUDGET[tier], 'actors': self.actors}
@@ -667,7 +668,19 @@ class _Gen(object):
             op = r.choice(['f:LU_decomp', 'f:lu', 'f:LU_decomp'])
             steps.append({'kind': 'call', 'actor': 'mp', 'op': op, 'args': [json.loads(json.dumps(obj))], 'id': self.new_id(),
                           'key': 'mat_' + op[2:], 'judge': True, 'tol': 16, 'exact': False, 'rel': 'hist', 'group': 'matrix'})
-        elif c < 0.93:
+        elif c < 0.935 and ('c1' in self.actors or 'fp' in self.actors):
+            # another context decomposes mp's matrix (the entries are mp's numbers, so the arithmetic runs at mp's
+            # precision whatever the other context's is); then mp moves to that context's precision and asks itself
+            other = 'c1' if 'c1' in self.actors else 'fp'
+            p = 53 if other == 'fp' else pick_prec(r, 300)
+            if other != 'fp':
+                steps.append(self.setprec(other, p))
+            steps.append({'kind': 'call', 'actor': other, 'op': r.choice(['f:LU_decomp', 'f:lu']), 'args': [obj], 'id': self.new_id()})
+            steps.append(self.setprec('mp', p))
+            op = r.choice(['f:LU_decomp', 'f:lu'])
+            steps.append({'kind': 'call', 'actor': 'mp', 'op': op, 'args': [json.loads(json.dumps(obj))], 'id': self.new_id(),
+                          'key': 'mat_' + op[2:], 'judge': True, 'tol': 16, 'exact': False, 'rel': 'hist', 'group': 'matrix'})
+        elif c < 0.945:
             # decomposition that overwrites a *copy* made for the purpose, then the original is used again
             cp = {'kind': 'call', 'actor': 'mp', 'op': 'm:copy', 'args': [obj], 'id': self.new_id()}
             steps.append(cp)
